@@ -84,7 +84,7 @@ ASSUMPTIONS = [
     "interior state used in (b): alfa < x < beta, y, z, lam, xsi, eta, mu, zet, s > 0; residual norms of the line search "
     "are arbitrary non-negative numbers (over-approximates the accept/halve decisions)",
 ]
-ITEM_TIMEOUT = {"quick": 110, "thorough": 900}
+ITEM_TIMEOUT = {"quick": 240, "thorough": 900}
 
 
 # ================================================================================================ items
